@@ -384,6 +384,66 @@ fn downcasts(rep: &mut Report) {
 }
 
 /// Allocator ledger around create-use-drop of whole (reloader-less) caches.
+
+/// A value stored with `get_or_insert` under a key the dependency graph already knows, read
+/// through a guard while a notified edit of "its" file is hot-reloaded: the value is never
+/// dropped under the guard (nor afterwards: it is not reloadable at all).
+fn inserted_value_under_guard(rep: &mut Report, rounds: usize) {
+    type L = Leaf<1, 0, true>;
+    for round in 0..rounds {
+        rep.eval();
+        let mem = Mem::new("c13i", Hot::Yes);
+        mem.write("x", "a", b"x0");
+        let mut cache = AssetCache::with_source(mem.clone());
+        if round % 2 == 0 {
+            let _ = cache.load_owned::<L>("x");
+        } else {
+            let _ = cache.load::<L>("x");
+            cache.remove::<L>("x");
+        }
+        let h = cache.get_or_insert::<L>("x", L::from_n(7));
+        let token = h.read().token.serial();
+        let guard = h.read();
+        mem.write("x", "a", b"x1");
+        mem.notify_file("x", "a");
+        let sent = mem.sent();
+        if !crate::util::wait_until(if cfg!(miri) { 600_000 } else { 120_000 }, || cache.verif_events_handled() == Some(sent)) {
+            rep.inconclusive("inserted_value_under_guard: barrier watchdog");
+            return;
+        }
+        let mut bad = None;
+        std::thread::scope(|s| {
+            let t = s.spawn(|| cache.hot_reload());
+            for _ in 0..if cfg!(miri) { 30 } else { 500 } {
+                if !ledger::is_live(token) || guard.token.serial() != token {
+                    bad = Some("the value passed to get_or_insert was dropped (or replaced) while a read guard on it was alive");
+                    break;
+                }
+                std::thread::yield_now();
+            }
+            // Safe with the unchanged crate: the entry has no lock, hot_reload does not wait for us.
+            let _ = t.join();
+            if bad.is_none() && (!ledger::is_live(token) || guard.token.serial() != token) {
+                bad = Some("the value passed to get_or_insert was dropped (or replaced) while a read guard on it was alive");
+            }
+        });
+        drop(guard);
+        let scen = json!({"kind": "get_or_insert value under a guard during hot_reload", "round": round,
+            "key_known_through": if round % 2 == 0 { "load_owned" } else { "load + remove" }});
+        if let Some(b) = bad {
+            rep.violation("guard-pins-value", "C13/dropped-under-guard", json!(b), scen);
+            // the handle may dangle now: do not touch it again
+            std::mem::forget(cache);
+            continue;
+        }
+        if h.read().token.serial() != token {
+            rep.violation("inserted-value-replaced", "C13/inserted-value-replaced-by-reload", json!({}), scen);
+        }
+        rep.count("ledger_checks", 1);
+        rep.nontrivial(mix(0x13a, round as u64));
+    }
+}
+
 fn allocator_bracket(rep: &mut Report, rng: &mut Rng, rounds: usize, threads_at_start: usize) {
     rep.extra.insert("alloc_ledger_enabled".into(), json!(al::ENABLED));
     if !al::ENABLED {
@@ -504,6 +564,7 @@ pub fn run(args: &Args) -> Report {
 
     // (c)
     guard_vs_reload(&mut rep, if miri { 1 } else { args.n(10, 40) });
+    inserted_value_under_guard(&mut rep, if miri { 2 } else { args.n(10, 40) });
     guards_during_reload_stream(&mut rep, if miri { 1 } else { args.n(6, 40) }, if miri { 3 } else { 400 });
     // (d)
     let rounds = if miri { 4 } else { args.n(600, 20_000) };
